@@ -598,6 +598,19 @@ class Renderer:
     def break_free(self, txt, ind, nobreak=False):
         """Optionally split a statement over continuation lines at safe points (after a comma or
         around operators, never inside a literal)."""
+        if len(ind + txt) > 120 and not nobreak:
+            # too long for one free-form line (132 columns): break it, repeatedly if need be
+            out, rest, first = [], txt, True
+            while len(rest) > 100:
+                pts = [p for p in safe_break_points(rest) if 30 <= p <= 100]
+                if not pts:
+                    break
+                k = pts[-1]
+                out.append((ind if first else ind + "    ") + rest[:k].rstrip() + " &")
+                rest, first = rest[k:].lstrip(), False
+            out.append((ind if first else ind + "    ") + rest)
+            self.used.setdefault("continuation", set()).add("forced")
+            return out
         if nobreak or not self.feat.get("continuations", True) or not self.ch.bool(1, 5):
             return [ind + txt]
         points = safe_break_points(txt)
